@@ -73,6 +73,24 @@ def run(ctx, spec):
             w = k.get("witness")
             if not w:
                 continue
+            if w.get("kind") == "valgrind":
+                # memory-safety witness: the ops are replayed on the implementation under valgrind memcheck
+                import subprocess
+                env = dict(C.ENV)
+                env.update(w.get("env", {}))
+                ops = open(os.path.join(C.VERIF, w["ops_file"])).read()
+                try:
+                    pr = subprocess.run(["valgrind", "-q", "--error-exitcode=9", C.CORR, w["component"]], input=ops,
+                                        capture_output=True, text=True, env=env, timeout=300)
+                    still = pr.returncode == 9 and w.get("expect_stderr", "") in pr.stderr
+                except Exception as e:  # valgrind missing: the finding cannot be re-confirmed on this host
+                    ctx.notes.append("valgrind witness for %s could not run: %r" % (k["key"], e))
+                    still = True
+                if still:
+                    ctx.known_hits.append("%s: %s" % (k["key"], k["what"]))
+                else:
+                    ctx.notes.append("known finding %s no longer reproduces under valgrind" % k["key"])
+                continue
             rc, impl, _ = C.run_bin(C.CORR if w.get("bin", "corr") == "corr" else C.E2E, [w["component"]], w["ops"])
             if "expect" in w:
                 still = list(impl) == list(w["expect"])
